@@ -365,6 +365,36 @@ def apply_rules(lf, rules):
         lf.set_param_rule(**r)
 
 
+class deadline:
+    """`with deadline(20): ...` raises TimeoutError in the main thread when the body (python-level loops of the
+    implementation included) runs longer; a no-op outside the main thread"""
+
+    def __init__(self, seconds):
+        self.seconds = seconds
+        self.armed = False
+
+    def __enter__(self):
+        import signal
+        import threading
+
+        if threading.current_thread() is threading.main_thread():
+            def onalarm(signum, frame):
+                raise TimeoutError(f"no result within {self.seconds} s")
+
+            self.old = signal.signal(signal.SIGALRM, onalarm)
+            signal.setitimer(signal.ITIMER_REAL, self.seconds)
+            self.armed = True
+        return self
+
+    def __exit__(self, *exc):
+        import signal
+
+        if self.armed:
+            signal.setitimer(signal.ITIMER_REAL, 0)
+            signal.signal(signal.SIGALRM, self.old)
+        return False
+
+
 def build_lf(spec, rng=None):
     """the real likelihood function for a problem description (rules are generated on first use)"""
     import cogent3
